@@ -139,18 +139,7 @@ class Monitor(object):
             sent = [int(e.replace('%Z', '').split()[3]) for e in effs if e.startswith('ESent')]
             if list(pre[pi][0][:len(sent)]) != sent:
                 return 'pool %d sent %r but its queue was %r' % (pi, sent, list(pre[pi][0]))
-        # ---- bound, no loss, isolation
-        for pi in range(n):
-            buf, _, ls = post[pi]
-            bs = self.cfgs[pi][1]
-            if len(buf) > max(1, bs):
-                return 'pool %d holds %d events, buffer_size is %d' % (pi, len(buf), bs)
-            inflight = [l[2] for l in ls if l[2] is not None]
-            lhs = sorted(self.offered[pi])
-            rhs = sorted(list(buf) + inflight + self.acked[pi] + self.discarded[pi])
-            if lhs != rhs and 'ERaise' not in effs:
-                return ('pool %d: accepted %r but buffered+in-flight+acknowledged+discarded = %r'
-                        % (pi, lhs, rhs))
+        # ---- isolation of rejections (checked first: a foreign re-buffer also breaks the counts below)
         for e in effs:
             if e.startswith('ERejected') and 'Some' in e:
                 f = e.replace('%Z', '').replace('(', ' ').replace(')', ' ').split()
@@ -167,6 +156,18 @@ class Monitor(object):
                 later = [x for x in effs[k + 1:] if x.startswith(('EOffered %d ' % pi, 'EDiscard %d ' % pi, 'ERebuffered %d ' % pi))]
                 if op[0] in ('feed', 'finish') and not later and (not post[pi][0] or post[pi][0][0] != vid):
                     return 'event %d rejected by a listener of pool %d is not at the head of its queue' % (vid, pi)
+        # ---- bound, no loss, isolation
+        for pi in range(n):
+            buf, _, ls = post[pi]
+            bs = self.cfgs[pi][1]
+            if len(buf) > max(1, bs):
+                return 'pool %d holds %d events, buffer_size is %d' % (pi, len(buf), bs)
+            inflight = [l[2] for l in ls if l[2] is not None]
+            lhs = sorted(self.offered[pi])
+            rhs = sorted(list(buf) + inflight + self.acked[pi] + self.discarded[pi])
+            if lhs != rhs and 'ERaise' not in effs:
+                return ('pool %d: accepted %r but buffered+in-flight+acknowledged+discarded = %r'
+                        % (pi, lhs, rhs))
         if op[0] == 'feed':
             for pj in range(n):
                 if pj != op[1] and post[pj] != pre[pj]:
@@ -210,7 +211,7 @@ def run_history(cfgs, ops, hk, gserial, maxdig):
                     if envs is None or any(e[1] != 'p%d' % pi for e in envs):
                         verdict = {'step': len(ops), 'broken': 'stdin of listener %d/%d does not consist of whole envelopes of its pool' % (pi, i)}
     cfgterm = coq_list(['(%s, %s, %d%%nat, %s)' % (coq_list(['T_' + n for n in subs]), zlit(bs), nl, zlit(ps))
-                        for subs, bs, nl, ps, pr in cfgs])
+                        for subs, bs, nl, ps in [c[:4] for c in cfgs]])
     case = '(%s, %s, (%s, %s, %s), %s,\n %s,\n %s)' % (
         zlit(hk), zlit(maxdig), cfgterm, zlit(sys.maxsize), zlit(gserial), coq_list(opterms), coq_list(exp), w.table_term())
     return case, verdict, kinds
@@ -265,10 +266,12 @@ def _run(chk, wd, proved):
 
     # ---- exhaustive: every operation sequence of depth d after the READY setup, on a grid of configurations
     grid = []
-    for subs0, subs1 in [(SUBS[3], SUBS[0]), (SUBS[5], SUBS[6]), (SUBS[1], SUBS[2]), (SUBS[0], SUBS[10])]:
+    for subs0, subs1 in [(SUBS[3], SUBS[0]), (SUBS[4], SUBS[0]), (SUBS[5], SUBS[6]), (SUBS[1], SUBS[2]), (SUBS[0], SUBS[10])]:
         for bs in ((1, 2) if quick else (0, 1, 2, 3)):
             for nl in (1, 2):
-                grid.append([(subs0, bs, nl, -1, 999), (subs1, max(1, bs), 1, -1, 999)])
+                # listeners of the two pools share their priority (distinct names) / their names (distinct priorities)
+                for prefix in (None, 'listener'):
+                    grid.append([(subs0, bs, nl, -1, 999, prefix), (subs1, max(1, bs), 1, -1, 999, prefix)])
     alpha = []
     for t in ('Tick5Event', 'ProcessStateRunningEvent'):
         alpha.append(['emit', t])
@@ -283,20 +286,37 @@ def _run(chk, wd, proved):
     for cfgs in grid:
         setup = ready_setup(cfgs)
         for seq in itertools.product(alpha, repeat=depth):
-            if quick and rng.random() < 0.85:
+            if quick and rng.random() < 0.93:
                 continue
-            if not quick and cfgs[0][1] in (0, 3) and rng.random() < 0.7:
+            if not quick and (cfgs[0][1] in (0, 3) and rng.random() < 0.7 or rng.random() < 0.5):
                 continue
             add(cfgs, setup + [['emit', 'ProcessStateRunningEvent'], ['emit', 'Tick5Event']] + list(seq), tag='exh')
             chk.dist('exh')
     n_exh = len(cases)
 
+    # ---- routing: every (type, supertype) pair of the real hierarchy, configured in both orders, also
+    #      next to a pool subscribed to the subtype only; events of the subtype, the supertype and a leaf
+    from c10_env import events as _ev
+    classes = [getattr(_ev, n) for n in dir(_ev) if isinstance(getattr(_ev, n), type) and issubclass(getattr(_ev, n), _ev.Event)]
+    classes.sort(key=lambda c: c.__name__)
+    npairs = 0
+    for T in classes:
+        for S in classes:
+            if T is not S and issubclass(T, S):
+                leaf = [c for c in classes if issubclass(c, T) and not [d for d in classes if d is not c and issubclass(d, c)]][0]
+                for order in ([T.__name__, S.__name__], [S.__name__, T.__name__]):
+                    cfgs = [(order, 3, 1, -1, 999, None), ([T.__name__], 3, 1, -1, 999, None)]
+                    add(cfgs, [['emit', T.__name__], ['emit', S.__name__], ['emit', leaf.__name__]], tag='pairs')
+                npairs += 1
+    chk.dist('pairs', 2 * npairs)
+
     # ---- random histories
     def rand_cfgs():
         n = rng.choice([1, 2, 2, 3])
         same_prio = rng.random() < 0.7
+        prefix = 'listener' if rng.random() < 0.5 else None     # same process names in every pool
         return [(rng.choice(SUBS), rng.choice([0, 1, 1, 2, 3, 4]), rng.choice([1, 1, 2, 3]),
-                 -1, 999 if same_prio else 900 + k) for k in range(n)]
+                 -1, 999 if same_prio else 900 + k, prefix) for k in range(n)]
 
     def rand_ops(cfgs, n):
         ops = ready_setup(cfgs) if rng.random() < 0.8 else []
@@ -318,7 +338,9 @@ def _run(chk, wd, proved):
                 ops.append(['writable', pi, i, rng.choice([B, B, ['again'], ['epipe']])])
             elif r < 0.86:
                 pid[0] += 1
-                ops += [['spawn', pi, i, pid[0]], ['running', pi, i]]
+                ops.append(['spawn', pi, i, pid[0]])
+                if rng.random() < 0.75:      # else: still STARTING when it announces READY
+                    ops.append(['running', pi, i])
                 if rng.random() < 0.8:
                     ops.append(['feed', pi, i, b'READY\n'])
             elif r < 0.90:
@@ -332,7 +354,7 @@ def _run(chk, wd, proved):
         add(cfgs, rand_ops(cfgs, rng.randrange(5, 22)), hk=rng.choice([0, 0, 1]), tag='rand')
     # ---- serial wrap at maxint (GlobalSerial and pool serial start just below it)
     for _ in range(40 if quick else 400):
-        cfgs = [(c[0], c[1], c[2], sys.maxsize - rng.randrange(0, 3), c[4]) for c in rand_cfgs()]
+        cfgs = [(c[0], c[1], c[2], sys.maxsize - rng.randrange(0, 3), c[4], c[5]) for c in rand_cfgs()]
         add(cfgs, rand_ops(cfgs, rng.randrange(5, 14)), gserial=sys.maxsize - rng.randrange(0, 4), tag='wrap')
 
     # ---- compare with the model inside Coq
@@ -393,10 +415,11 @@ def _run(chk, wd, proved):
     cov['distinct_nontrivial'] = len(distinct)
     cov['exhaustive'] = False
     cov['rule'] = ('%d histories: %d from the exhaustive part (every sequence of %d operations over %d operation kinds after a '
-                   'READY setup plus two emitted events, on %d two-pool configurations; quick tier samples 15%% of them, thorough all of '
-                   'buffer sizes 1-2 and 30%% of 0 and 3), %d random '
+                   'READY setup plus two emitted events, on %d two-pool configurations; quick tier samples 7%% of them, thorough 50%% of '
+                   'buffer sizes 1-2 and 15%% of 0 and 3; every configuration once with listeners of different pools sharing their '
+                   'priority and once sharing their process names), %d random '
                    'histories of 5-21 operations on 1-3 pools (12 subscription lists incl. type+supertype, duplicates, empty; '
-                   'buffer sizes 0-4; 1-3 listeners; equal and different priorities), 40+ histories starting just below maxint; '
+                   'buffer sizes 0-4; 1-3 listeners; equal and different priorities), 40+ histories starting just below maxint; every (type, supertype) pair of the hierarchy configured in both orders; '
                    'distinct = distinct (operation kind, effect kinds) combinations observed'
                    % (len(cases), n_exh, depth, len(alpha), len(grid), nrand))
     cov['samples'] = [meta[0], meta[n_exh + 1] if len(meta) > n_exh + 1 else meta[-1], meta[-1]]
